@@ -27,8 +27,10 @@
     - Return Metadata containing a Link object which can be can be signed
       and stored to disk
 """
+import codecs
 import glob
 import io
+import locale
 import logging
 import os
 import subprocess  # nosec
@@ -225,19 +227,31 @@ def _subprocess_run_duplicate_streams(cmd, timeout):
     stdout_fd, stdout_name = tempfile.mkstemp()
     stderr_fd, stderr_name = tempfile.mkstemp()
     try:
-        with io.open(  # pylint: disable=unspecified-encoding
-            stdout_name, "r"
+        with io.open(
+            stdout_name, "rb"
         ) as stdout_reader, os.fdopen(  # pylint: disable=unspecified-encoding
             stdout_fd, "w"
-        ) as stdout_writer, io.open(  # pylint: disable=unspecified-encoding
-            stderr_name, "r"
+        ) as stdout_writer, io.open(
+            stderr_name, "rb"
         ) as stderr_reader, os.fdopen(
             stderr_fd, "w"
         ) as stderr_writer:
             # Store stream results in mutable dict to update it inside nested helper
             streams = {"out": "", "err": ""}
 
-            def _duplicate_streams():
+            # Decode like a text-mode stream (locale encoding, universal newlines)
+            # but incrementally, so that the result does not depend on where a
+            # read happens to end, e.g. inside a multi-byte character or between
+            # CR and LF, while the child process is still writing.
+            encoding = locale.getpreferredencoding(False)
+            stdout_decoder = io.IncrementalNewlineDecoder(
+                codecs.getincrementaldecoder(encoding)(), translate=True
+            )
+            stderr_decoder = io.IncrementalNewlineDecoder(
+                codecs.getincrementaldecoder(encoding)(), translate=True
+            )
+
+            def _duplicate_streams(final=False):
                 """Helper to read from child process standard streams, write their
                 contents to parent process standard streams, and build up return values
                 for outer function.
@@ -245,15 +259,17 @@ def _subprocess_run_duplicate_streams(cmd, timeout):
                 # Read until EOF but at most `io.DEFAULT_BUFFER_SIZE` bytes per call.
                 # Reading and writing in reasonably sized chunks prevents us from
                 # subverting a timeout, due to being busy for too long or indefinitely.
-                stdout_part = stdout_reader.read(io.DEFAULT_BUFFER_SIZE)
-                stderr_part = stderr_reader.read(io.DEFAULT_BUFFER_SIZE)
+                stdout_bytes = stdout_reader.read(io.DEFAULT_BUFFER_SIZE)
+                stderr_bytes = stderr_reader.read(io.DEFAULT_BUFFER_SIZE)
+                stdout_part = stdout_decoder.decode(stdout_bytes, final)
+                stderr_part = stderr_decoder.decode(stderr_bytes, final)
                 sys.stdout.write(stdout_part)
                 sys.stderr.write(stderr_part)
                 sys.stdout.flush()
                 sys.stderr.flush()
                 streams["out"] += stdout_part
                 streams["err"] += stderr_part
-                return bool(stdout_part or stderr_part)
+                return bool(stdout_bytes or stderr_bytes)
 
             # Start child process, writing its standard streams to temporary files
             proc = subprocess.Popen(  # pylint: disable=consider-using-with  # nosec
@@ -281,6 +297,7 @@ def _subprocess_run_duplicate_streams(cmd, timeout):
             # our last read in the loop and exiting, i.e. breaking the loop.
             while _duplicate_streams():
                 pass
+            _duplicate_streams(final=True)
 
     finally:
         # The work is done or was interrupted, the temp files can be removed
